@@ -295,8 +295,11 @@ class OpenReader(object):
                     if final:
                         os.replace(p, final / p.name)
                         p = final / p.name
-                    self.reader = self.must_return('get_ephys_reader', get_ephys_reader, arg_of(p),
-                                                   sample_rate=self.sample_rate, **self._kw(lay))
+                    # (a one-element list of paths is accepted as well)
+                    self.reader = self.must_return(
+                        'get_ephys_reader', get_ephys_reader,
+                        [arg_of(p)] if lay.get('salt', 0) % 3 == 0 else arg_of(p),
+                        sample_rate=self.sample_rate, **self._kw(lay))
                 else:
                     paths = rec.write_flat(d, self.A, lay['parts'], lay['offset'],
                                            ext=lay.get('ext', '.dat'), order=lay.get('names', 'asc'))
